@@ -21,6 +21,8 @@ Inductive case11 :=
 | KParse (hex : string) (orc : list (Q * Q * Q)) (gclass gkind gpos : Z) (god : list num) (exact : bool)
 | KFloat (hex : string) (glen : Z) (gfin : bool) (gval : Q)
 | KPrint (god : list num) (sStr sSvg sPdf sPs : string) (rclass : Z) (rdata : list num) (cs : list (Q * Q)) (rorc : list (Q * Q * Q))
+(* the same under a configured canvas.Precision of 8 + dp digits: the printers' tolerances scale by 10^-dp *)
+| KPrintP (k : Q) (god : list num) (sStr sSvg sPdf sPs : string) (rclass : Z) (rdata : list num) (cs : list (Q * Q)) (rorc : list (Q * Q * Q))
 | KNone.
 
 Definition bit (b : bool) (k : Z) : Z := if b then k else 0.
@@ -116,7 +118,7 @@ Fixpoint eat_chain (fuel : nat) (abs : Q) (b : pt) (act : list gp) : option (lis
   | _, _ => None
   end.
 
-Fixpoint pdf_match (abs : Q) (exp act : list gp) : bool :=
+Fixpoint pdf_match (rel abs : Q) (exp act : list gp) : bool :=
   match exp with
   | [] => match act with [] => true | _ => false end
   | GArcE a rx ry _ _ _ b :: er =>
@@ -125,22 +127,22 @@ Fixpoint pdf_match (abs : Q) (exp act : list gp) : bool :=
     let abs2 := (abs + (1 # 68719476736) * Qmax (Qabs rx) (Qabs ry))%Q in
     match act with
     | (GCube a' _ _ _ | GLine a' _) :: _ =>
-      pnear2 abs REL7 a a' && match eat_chain 64 abs2 b act with Some ar => pdf_match abs er ar | None => false end
+      pnear2 abs rel a a' && match eat_chain 64 abs2 b act with Some ar => pdf_match rel abs er ar | None => false end
     | _ => false
     end
-  | GQuad a c b :: er => match act with y :: ar => gp_near2 abs REL7 (q2c a c b) y && pdf_match abs er ar | [] => false end
-  | x :: er => match act with y :: ar => gp_near2 abs REL7 x y && pdf_match abs er ar | [] => false end
+  | GQuad a c b :: er => match act with y :: ar => gp_near2 abs rel (q2c a c b) y && pdf_match rel abs er ar | [] => false end
+  | x :: er => match act with y :: ar => gp_near2 abs rel x y && pdf_match rel abs er ar | [] => false end
   end.
 
 (** PS: arcs in centre form; (c, s) = (cos phi, sin phi) of the stored rotation come from the harness and
     must be a unit vector; both end points must lie on the printed ellipse, direction and size flags must
     agree with the printed angles. *)
-Definition on_ellipse (cx cy rx ry c s : Q) (p : pt) : bool :=
+Definition on_ellipse (rel cx cy rx ry c s : Q) (p : pt) : bool :=
   let dx := (fst p - cx)%Q in let dy := (snd p - cy)%Q in
   let u := (c * dx + s * dy)%Q in let v := (- s * dx + c * dy)%Q in
   (* the centre and the point are printed with 8 significant digits: displacement delta = 1e-7 * magnitude;
      the quadratic form moves by about 2*(1+delta/r)*delta/r for the smaller radius r *)
-  let delta := (REL7 * (Qabs cx + Qabs cy + Qabs (fst p) + Qabs (snd p)))%Q in
+  let delta := (rel * (Qabs cx + Qabs cy + Qabs (fst p) + Qabs (snd p)))%Q in
   let r := Qmin (Qabs rx) (Qabs ry) in
   let t := (delta / r)%Q in
   near ((1 # 100000) + (4#1) * t * (1 + t))%Q 0 ((u * u) / (rx * rx) + (v * v) / (ry * ry))%Q 1.
@@ -153,24 +155,24 @@ Fixpoint drop_null_lines (l : list gp) : list gp :=
   | [] => []
   end.
 
-Fixpoint ps_match (abs : Q) (exp act : list gp) (cs : list (Q * Q)) : bool :=
+Fixpoint ps_match (rel abs : Q) (exp act : list gp) (cs : list (Q * Q)) : bool :=
   match exp with
   | [] => match act with [] => true | _ => false end
   | GArcE a rx ry rot l s b :: er =>
     match act, cs with
     | GArcC a' cx cy rx' ry' t0 t1 rot' ccw :: ar, (c, sn) :: cs' =>
-      pnear2 abs REL7 a a' && near abs REL7 rx rx' && near abs REL7 ry ry' && near (1 # 100000) REL7 rot rot'
+      pnear2 abs rel a a' && near abs rel rx rx' && near abs rel ry ry' && near (1 # 100000) rel rot rot'
       && Bool.eqb ccw s
       && near (1 # 1000000) 0 (c * c + sn * sn)%Q 1
-      && on_ellipse cx cy rx' ry' c sn a && on_ellipse cx cy rx' ry' c sn b
+      && on_ellipse rel cx cy rx' ry' c sn a && on_ellipse rel cx cy rx' ry' c sn b
       && (if ccw then Qle_bool t0 t1 else Qle_bool t1 t0)
       && Qle_bool (Qabs (t1 - t0)) ((360#1) + (1 # 1000))
       && (near (1 # 1000) 0 (Qabs (t1 - t0)) (180#1) || Bool.eqb l (negb (Qle_bool (Qabs (t1 - t0)) (180#1))))
-      && ps_match abs er ar cs'
+      && ps_match rel abs er ar cs'
     | _, _ => false
     end
-  | GQuad a c b :: er => match act with y :: ar => gp_near2 abs REL7 (q2c a c b) y && ps_match abs er ar cs | [] => false end
-  | x :: er => match act with y :: ar => gp_near2 abs REL7 x y && ps_match abs er ar cs | [] => false end
+  | GQuad a c b :: er => match act with y :: ar => gp_near2 abs rel (q2c a c b) y && ps_match rel abs er ar cs | [] => false end
+  | x :: er => match act with y :: ar => gp_near2 abs rel x y && ps_match rel abs er ar cs | [] => false end
   end.
 
 Fixpoint arc_ends (l : list gp) : list pt :=
@@ -184,7 +186,7 @@ Fixpoint arc_ends (l : list gp) : list pt :=
     cells within Path.Equals' own tolerance *)
 Definition EPS10 : Q := 1 # 10000000000.
 
-Definition judge_print (god : list num) (sStr sSvg sPdf sPs : string) (rclass : Z) (rdata : list num) (cs : list (Q * Q)) (rorc : list (Q * Q * Q)) : Z :=
+Definition judge_print_k (k : Q) (god : list num) (sStr sSvg sPdf sPs : string) (rclass : Z) (rdata : list num) (cs : list (Q * Q)) (rorc : list (Q * Q * Q)) : Z :=
   match expected god with
   | None => 0      (* not decodable: nothing to say here (C10's validator flags it) *)
   | Some ex =>
@@ -202,16 +204,18 @@ Definition judge_print (god : list num) (sStr sSvg sPdf sPs : string) (rclass : 
                | PUnmodelled => true
                | PFuel => false end in
     let svg := match svg_path_sem (hexbytes sSvg) with
-               | Some act => gps_near (1 # 1000000000) (1 # 10000000) ex act
+               | Some act => gps_near ((1 # 1000000000) * k) ((1 # 10000000) * k) ex act
                | None => false end in
     let pdf := match pdf_sem (hexbytes sPdf) with
-               | Some act => pdf_match (1 # 100000000) ex (drop_null_lines act)
+               | Some act => pdf_match (REL7 * k) ((1 # 100000000) * k) ex (drop_null_lines act)
                | None => false end in
     let ps := match ps_sem (hexbytes sPs) (arc_ends ex) with
-              | Some act => ps_match (1 # 100000000) ex (drop_null_lines act) cs
+              | Some act => ps_match (REL7 * k) ((1 # 100000000) * k) ex (drop_null_lines act) cs
               | None => false end in
     bit (negb rt) 512 + bit (negb svg) 1024 + bit (negb pdf) 2048 + bit (negb ps) 4096 + bit (negb tie) 4
   end.
+
+Definition judge_print := judge_print_k 1.
 
 Definition judge (c : case11) : list Z :=
   match c with
@@ -235,6 +239,9 @@ Definition judge (c : case11) : list Z :=
     end
   | KPrint god sStr sSvg sPdf sPs rclass rdata cs rorc =>
     [judge_print god sStr sSvg sPdf sPs rclass rdata cs rorc;
+     match decode_fwd god with Some p => Z.of_nat (List.length p) | None => -1 end; 0]
+  | KPrintP k god sStr sSvg sPdf sPs rclass rdata cs rorc =>
+    [judge_print_k k god sStr sSvg sPdf sPs rclass rdata cs rorc;
      match decode_fwd god with Some p => Z.of_nat (List.length p) | None => -1 end; 0]
   | KNone => [0; 0; 0]
   end.
